@@ -22,7 +22,11 @@ Theorem C18_format_frozen :
    Gen_Format.value_file_layout = Format_5_6_3.value_file_layout /\
    Gen_Format.queue = Format_5_6_3.queue /\
    Gen_Format.shard_dir_format = Format_5_6_3.shard_dir_format /\
-   Gen_Format.fanout_size_limit_rule = Format_5_6_3.fanout_size_limit_rule /\
+   (* the one recorded difference (repair of C18-F1): released = handed to every shard on every open; current = handed
+      when given or when the shard is new.  C18_fanout_rule_compatible: the two agree on new shards and whenever
+      size_limit is given, so a directory written by the released code is opened as before except that a plain reopen
+      no longer overwrites the stored per-shard limit *)
+   (Format_5_6_3.fanout_size_limit_rule = SLAlwaysPassed /\ Gen_Format.fanout_size_limit_rule = SLWhenGivenOrNew) /\
    Gen_Format.cache_getstate = Format_5_6_3.cache_getstate /\
    Gen_Format.cache_init_params = Format_5_6_3.cache_init_params /\
    Gen_Format.fanout_getstate = Format_5_6_3.fanout_getstate /\
@@ -59,28 +63,69 @@ Example C18_reopen_settings_example :
   lookup size_limit_key (open_settings Gen_Format.DEFAULT_SETTINGS [] d17_given) = Some (SVInt 1000).
 Proof. exact reopen_settings_example. Qed.
 
-(* Full statement for FanoutCache (FALSE of the code as written, finding C18-F1 / D17): the clause
-     forall k g2, lookup k g2 = None -> lookup k (fanout_open_settings ... (fanout_stored_after ... given) g2)
-                                        = lookup k (fanout_open_settings ... given)
-   fails at k = size_limit: FanoutCache(dir, shards=2, size_limit=1000) gives every shard 500; reopened
-   without the argument every shard is given DEFAULT/2 = 536870912, which overwrites the stored 500. *)
-Theorem C18_fanout_size_limit_refuted :
+(* The full statement for one shard of a FanoutCache, for all dictionaries and every setting (size_limit included).
+   `existed`: the shard's database file was there before the open; `divide` is "/ shards".  After any open the shard
+   exists, so the later open is taken with existed = true. *)
+Theorem C18_fanout_reopen_settings : forall (V : Type) (divide : V -> V) (meta defaults stored given : @dict V) (existed : bool),
+  map fst meta = map fst Gen_Format.METADATA ->
+  (forall g2 k, lookup k g2 = None ->
+     lookup k (fanout_open_settings divide true defaults (fanout_stored_after divide existed meta defaults stored given) g2) =
+     lookup k (fanout_open_settings divide existed defaults stored given)) /\
+  (* (a) an existing shard opened without size_limit shows the stored limit and leaves it stored *)
+  (forall v, existed = true -> lookup size_limit_key stored = Some v -> lookup size_limit_key given = None ->
+     lookup size_limit_key (fanout_open_settings divide existed defaults stored given) = Some v /\
+     lookup size_limit_key (fanout_stored_after divide existed meta defaults stored given) = Some v) /\
+  (* (b) a new shard opened without size_limit gets the default total divided *)
+  (forall d, existed = false -> lookup size_limit_key given = None -> lookup size_limit_key defaults = Some d ->
+     lookup size_limit_key (fanout_open_settings divide existed defaults stored given) = Some (divide d) /\
+     lookup size_limit_key (fanout_stored_after divide existed meta defaults stored given) = Some (divide d)) /\
+  (* (c) a given size_limit is divided, shown and stored, for new and existing shards *)
+  (forall v, lookup size_limit_key given = Some v ->
+     lookup size_limit_key (fanout_open_settings divide existed defaults stored given) = Some (divide v) /\
+     lookup size_limit_key (fanout_stored_after divide existed meta defaults stored given) = Some (divide v)) /\
+  (* every other setting is treated as by a plain Cache *)
+  (forall k, zlist_eqb k size_limit_key = false ->
+     lookup k (fanout_open_settings divide existed defaults stored given) = lookup k (open_settings defaults stored given)).
+Proof. exact (@fanout_reopen_settings_all). Qed.
+Print Assumptions C18_fanout_reopen_settings.
+
+(* the hypotheses are satisfiable, on the witness of the former finding: FanoutCache(d, shards=2, size_limit=1000) shows
+   500 per shard; reopened without the argument it shows 500 and 500 stays stored; a new one shows DEFAULT / 2 *)
+Example C18_fanout_reopen_settings_example :
+  map fst Gen_Format.METADATA = map fst Gen_Format.METADATA /\
+  lookup size_limit_key (fanout_open_settings (sval_div 2) false Gen_Format.DEFAULT_SETTINGS [] d17_given) = Some (SVInt 500) /\
+  lookup size_limit_key
+    (fanout_open_settings (sval_div 2) true Gen_Format.DEFAULT_SETTINGS
+       (fanout_stored_after (sval_div 2) false Gen_Format.METADATA Gen_Format.DEFAULT_SETTINGS [] d17_given) [])
+  = Some (SVInt 500) /\
+  lookup size_limit_key
+    (fanout_stored_after (sval_div 2) true Gen_Format.METADATA Gen_Format.DEFAULT_SETTINGS
+       (fanout_stored_after (sval_div 2) false Gen_Format.METADATA Gen_Format.DEFAULT_SETTINGS [] d17_given) [])
+  = Some (SVInt 500) /\
+  lookup size_limit_key (fanout_open_settings (sval_div 2) false Gen_Format.DEFAULT_SETTINGS [] []) = Some (SVInt 536870912).
+Proof. exact fanout_reopen_settings_example. Qed.
+
+(* The former finding C18-F1 / D17 as a statement about the RELEASED rule (Format_5_6_3.fanout_size_limit_rule =
+   SLAlwaysPassed): FanoutCache(dir, shards=2, size_limit=1000) gives every shard 500; reopened without the argument
+   every shard is given DEFAULT/2 = 536870912, which overwrites the stored 500. *)
+Theorem C18_released_fanout_size_limit_refuted :
   exists (defaults meta given : @dict sval) (divide : sval -> sval) v,
     map fst meta = map fst Gen_Format.METADATA /\
-    lookup size_limit_key (fanout_open_settings divide defaults [] given) = Some v /\
-    lookup size_limit_key (fanout_open_settings divide defaults (fanout_stored_after divide meta defaults [] given) []) <> Some v.
-Proof. exact fanout_size_limit_refuted_ex. Qed.
-Print Assumptions C18_fanout_size_limit_refuted.
+    lookup size_limit_key (fanout_open_settings_with Format_5_6_3.fanout_size_limit_rule divide false defaults [] given) = Some v /\
+    lookup size_limit_key
+      (fanout_open_settings_with Format_5_6_3.fanout_size_limit_rule divide true defaults
+         (fanout_stored_after_with Format_5_6_3.fanout_size_limit_rule divide false meta defaults [] given) []) <> Some v.
+Proof. exact released_fanout_size_limit_refuted_ex. Qed.
+Print Assumptions C18_released_fanout_size_limit_refuted.
 
-(* every other setting survives reopening a FanoutCache *)
-Theorem C18_fanout_reopen_partial : forall (V : Type) (divide : V -> V) (meta defaults stored given g2 : @dict V) k,
-  map fst meta = map fst Gen_Format.METADATA ->
-  zlist_eqb k size_limit_key = false ->
-  lookup k g2 = None ->
-  lookup k (fanout_open_settings divide defaults (fanout_stored_after divide meta defaults stored given) g2) =
-  lookup k (fanout_open_settings divide defaults stored given).
-Proof. exact (@fanout_reopen_partial_all). Qed.
-Print Assumptions C18_fanout_reopen_partial.
+(* The repair changes nothing else: a new shard, and any shard when size_limit is given, is handed the very same
+   dictionary by the current rule and by the released one. *)
+Theorem C18_fanout_rule_compatible : forall (V : Type) (divide : V -> V) (existed : bool) (defaults given : @dict V),
+  existed = false \/ lookup size_limit_key given <> None ->
+  fanout_given Gen_Format.fanout_size_limit_rule size_limit_key divide existed defaults given =
+  fanout_given Format_5_6_3.fanout_size_limit_rule size_limit_key divide existed defaults given.
+Proof. exact (@fanout_rule_compatible_all). Qed.
+Print Assumptions C18_fanout_rule_compatible.
 
 (* what a handle carries: __getstate__ lists exactly the leading positional parameters of __init__, so
    unpickling (and copy) reopens the same directory with the same timeout and disk class (and shard count);
